@@ -28,7 +28,7 @@ async def direct_checks(nodes, obs, sd, idx, acc):
     for st, real_st in (("REQUIRED", R.IS_REQUIRED), ("OPTIONAL", R.IS_OPTIONAL), ("FORBIDDEN", R.IS_FORBIDDEN)):
         deep, exprs, objs = V.build_ahb(nodes, random.Random(rs))
         el = objs[len(nodes)]
-        V.setup_cer()
+        V.setup_cer(deep)
         acc.c("validations")
         try:
             r = V.project_result(await validate_data_element_valuepool(el, real_st))
@@ -46,7 +46,7 @@ async def direct_checks(nodes, obs, sd, idx, acc):
     seg_idx = nodes[-1]["par"]
     for preq, pname in ((None, "NONE"), (R.IS_REQUIRED, "REQUIRED"), (R.IS_OPTIONAL, "OPTIONAL")):
         deep, exprs, objs = V.build_ahb(nodes, random.Random(rs))
-        V.setup_cer()
+        V.setup_cer(deep)
         acc.c("validations")
         try:
             rs_ = await validate_segment(objs[seg_idx], preq, True)
